@@ -36,31 +36,32 @@ theorem mapM_nameIdx_ok : ∀ (l : List Spec.Name) (s s' : St) (is : List Nat), 
 theorem layout_code_cons (code : List Instr) (cs : List CStmt) : layoutStmts none (.code code :: cs) = code ++ layoutStmts none cs := by
   simp [layoutStmts, layoutStmt]
 
-def exitNode (p q : Int) : Node := .stmt p (.callFn (.s (S "exit")) q .none true false false .none)
+/-- every node of the list is a statement whose position lies in the code range `a .. a + len` -/
+def PosIn (a len : Nat) (ns : List Node) : Prop := ∀ x ∈ ns, (a : Int) ≤ x.pos ∧ x.pos < ((a + len : Nat) : Int)
 
 /-- **L3 for statement lists**: the code of a handler body appends one `Statement` per source statement -/
-theorem stmts_lemma : ∀ (ss : List Stmt), FragSs ss = true → ∀ (c : Spec.Ctx) (s0 s1 : St) (cs : List CStmt),
+theorem stmts_lemma : ∀ (ss : List Stmt), FragSs ss = true → ∀ (c : Spec.Ctx), c.inTell = false → ∀ (s0 s1 : St) (cs : List CStmt),
     lowerStmts c ss s0 = .ok (cs, s1) →
     Ext s0 s1 ∧ (∀ i ∈ layoutStmts none cs, i.opc ≠ 153) ∧
     ∀ (sF : St) (ctx : Lscr.Ctx), Ext s1 sF → Rel c sF ctx → ∀ (G : List Spec.Name), (∀ g ∈ Stmt.varsList .glob ss, g ∈ G) →
       (∀ v ∈ Stmt.varsList .prop ss, ctx.props.contains v = true) →
       ∀ (a : Nat) (st : PState), st.bpc = 6 → GvOk G st.gvars →
-        ∃ ns gv', EmbSs ss ns ∧ PlainStmts ns ∧ GvOk G gv' ∧
+        ∃ ns gv', EmbSsH c.handlers ss ns ∧ PlainStmts ns ∧ PosIn a (codeSize (layoutStmts none cs)) ns ∧ GvNext G st.gvars gv' ∧
           runIs ctx a (layoutStmts none cs) st = .ok { st with stmts := st.stmts ++ ns, gvars := gv' }
-  | [], _, c, s0, s1, cs, h => by
+  | [], _, c, _, s0, s1, cs, h => by
     rw [lowerStmts] at h
     simp only [M_pure_ok, Prod.mk.injEq] at h
     obtain ⟨rfl, rfl⟩ := h
     refine ⟨Ext.refl _, by simp [layoutStmts], ?_⟩
     intro sF ctx _ _ G _ _ a st _ hgv
-    exact ⟨[], st.gvars, rfl, (show PlainStmts [] from fun x hx => by cases hx), hgv, by simp [layoutStmts, runIs]⟩
-  | s :: ss, hf, c, s0, s1, cs, h => by
+    exact ⟨[], st.gvars, rfl, (show PlainStmts [] from fun x hx => by cases hx), (fun x hx => by cases hx), GvNext.refl hgv, by simp [layoutStmts, runIs]⟩
+  | s :: ss, hf, c, hT, s0, s1, cs, h => by
     simp only [FragSs, Bool.and_eq_true] at hf
     rw [lowerStmts] at h
     simp only [M_bind_ok, M_pure_ok, Prod.mk.injEq] at h
     obtain ⟨c1, s', h1, c2, s'', h2, rfl, rfl⟩ := h
-    obtain ⟨hext1, code, rfl, hop1, hrun1⟩ := stmt_lemma s hf.1 c s0 _ c1 h1
-    obtain ⟨hext2, hop2, hrun2⟩ := stmts_lemma ss hf.2 c _ _ c2 h2
+    obtain ⟨hext1, code, rfl, hop1, hrun1⟩ := stmt_lemma s hf.1 c hT s0 _ c1 h1
+    obtain ⟨hext2, hop2, hrun2⟩ := stmts_lemma ss hf.2 c hT _ _ c2 h2
     refine ⟨hext1.trans hext2, ?_, ?_⟩
     · intro i hi
       rw [List.singleton_append, layout_code_cons] at hi
@@ -72,30 +73,27 @@ theorem stmts_lemma : ∀ (ss : List Stmt), FragSs ss = true → ∀ (c : Spec.C
     have hG2 : ∀ g ∈ Stmt.varsList .glob ss, g ∈ G := fun g hg => hG g (by simp [Stmt.varsList, hg])
     have hP1 : ∀ v ∈ s.vars .prop, ctx.props.contains v = true := fun v hv => hP v (by simp [Stmt.varsList, hv])
     have hP2 : ∀ v ∈ Stmt.varsList .prop ss, ctx.props.contains v = true := fun v hv => hP v (by simp [Stmt.varsList, hv])
-    obtain ⟨n, gv1, hemb, hplain, hgv1, hr1⟩ := hrun1 sF ctx (hext2.trans hF) hrel G hG1 hP1 a st hb hgv
-    obtain ⟨ns, gv2, hembs, hplains, hgv2, hr2⟩ := hrun2 sF ctx hF hrel G hG2 hP2 (a + codeSize code)
-      { st with stmts := st.stmts ++ [n], gvars := gv1 } hb hgv1
-    refine ⟨n :: ns, gv2, ⟨n, ns, rfl, hemb, hembs⟩, ?_, hgv2, ?_⟩
+    obtain ⟨n, gv1, hemb, hplain, hin, hgv1, hr1⟩ := hrun1 sF ctx (hext2.trans hF) hrel G hG1 hP1 a st hb hgv
+    obtain ⟨ns, gv2, hembs, hplains, hpos, hgv2, hr2⟩ := hrun2 sF ctx hF hrel G hG2 hP2 (a + codeSize code)
+      { st with stmts := st.stmts ++ [n], gvars := gv1 } hb hgv1.1
+    refine ⟨n :: ns, gv2, ⟨n, ns, rfl, hemb, hembs⟩, ?_, ?_, hgv1.trans hgv2, ?_⟩
     · intro x hx
       rcases List.mem_cons.mp hx with hx | hx
       · subst hx; exact hplain
       · exact hplains x hx
+    · intro x hx
+      rw [List.singleton_append, layout_code_cons, codeSize_append]
+      rcases List.mem_cons.mp hx with hx | hx
+      · subst hx
+        obtain ⟨p, cd, rfl, h1, h2⟩ := hin
+        simp only [Node.pos]
+        omega
+      · have := hpos x hx
+        omega
     · rw [List.singleton_append, layout_code_cons, runIs_append, hr1]
       simp only [Except.bind]
       rw [hr2]
       simp [List.append_assoc]
-
-theorem exec_exit (ctx : Lscr.Ctx) (b : Nat) (hb : b = 1 ∨ b = 2) (a : Int) (st : PState) :
-    execI ctx (.op1 b) a st = .ok { st with stmts := st.stmts ++ [exitNode a a] } := by
-  rcases hb with rfl | rfl
-  · have hl : Opcodes.opcodes.lookup 1 = some { cls := "ExitOpcode", impl := "ExitOpcode", nbytes := 1, kind := "plain", attrs := [] } := rfl
-    simp only [execI, hl]
-    unfold process0
-    simp only [PState.addStmt, exitNode]
-  · have hl : Opcodes.opcodes.lookup 2 = some { cls := "ExitFactoryMethodOpcode", impl := "ExitFactoryMethodOpcode", nbytes := 1, kind := "plain", attrs := [] } := rfl
-    simp only [execI, hl]
-    unfold process0
-    simp only [PState.addStmt, exitNode]
 
 /-! ### handlers -/
 
@@ -103,38 +101,61 @@ theorem exec_exit (ctx : Lscr.Ctx) (b : Nat) (hb : b = 1 ∨ b = 2) (a : Int) (s
 def hctx (hnames : List Spec.Name) (h : Handler) : Spec.Ctx :=
   { handlers := hnames, params := h.params, locals := h.locals, isMethod := h.isMethod, inTell := false }
 
+/-! The handler / script chain is parametric in the semantics of handler bodies, so that the control-flow link (C03Link) can
+    reuse it: `B h a raw` = the code of `h.body`, run from address `a` on an empty statement list, leaves the raw statements `raw`;
+    `F h fin` = what `condition_detect` / `loop_detect` make of them.  The link theorems of this development are the instance
+    `B₀` (one plain `Statement` per source statement) / `F₀` (unchanged). -/
+
+/-- hypothesis on the body of one handler: what `stmts_lemma` states, with an arbitrary result predicate -/
+def BodyRun (B : Handler → Nat → Nat → List Node → Prop) (hnames : List Spec.Name) (h : Handler) : Prop :=
+  ∀ (s0 s1 : St) (cs : List CStmt), lowerStmts (hctx hnames h) h.body s0 = .ok (cs, s1) →
+    Ext s0 s1 ∧ (∀ i ∈ layoutStmts none cs, i.opc ≠ 153) ∧
+    ∀ (sF : St) (ctx : Lscr.Ctx), Ext s1 sF → Rel (hctx hnames h) sF ctx → ∀ (G : List Spec.Name),
+      (∀ g ∈ Stmt.varsList .glob h.body, g ∈ G) → (∀ v ∈ Stmt.varsList .prop h.body, ctx.props.contains v = true) →
+      ∀ (a : Nat) (st : PState), st.bpc = 6 → GvOk G st.gvars → st.stmts = [] →
+        ∃ raw gv', B h a (codeSize (layoutStmts none cs)) raw ∧ PosIn a (codeSize (layoutStmts none cs)) raw ∧ GvNext G st.gvars gv' ∧
+          runIs ctx a (layoutStmts none cs) st = .ok { st with stmts := raw, gvars := gv' }
+
+/-- hypothesis on the flow passes: they turn the raw statements (followed by the handler's final `exit`) into `fin` -/
+def FlowOk (B : Handler → Nat → Nat → List Node → Prop) (F : Handler → List Node → Prop) (h : Handler) : Prop :=
+  ∀ (a len : Nat) (raw : List Node), B h a len raw → PosIn a len raw →
+    ∃ fin, (condDetect (raw ++ [exitNode ((a + len : Nat) : Int) ((a + len : Nat) : Int)])).bind loopDetect
+        = .ok (fin ++ [exitNode ((a + len : Nat) : Int) ((a + len : Nat) : Int)]) ∧ F h fin
+
 /-- what the lowering of one handler guarantees, relative to a final lowering state `sF` -/
-structure HandlerOK (hnames : List Spec.Name) (sF : St) (h : Handler) (hc : HCode) : Prop where
+structure HandlerOKg (B : Handler → Nat → Nat → List Node → Prop) (hnames sg : List Spec.Name) (sF : St) (h : Handler) (hc : HCode) : Prop where
   ni : hc.nameIdx < 256 ∧ sF.names[hc.nameIdx]? = some h.name
   args : NamesAt sF.names hc.args h.params
   locals : NamesAt sF.names hc.locals h.locals
-  globals : hc.globals = []
+  globals : NamesAt sF.names hc.globals (h.globalsUsed sg)
   code : ∃ is, hc.code = encodeInstrs is ∧ (∀ i ∈ is, GoodI i) ∧
     ∀ (ctx : Lscr.Ctx), Rel (hctx hnames h) sF ctx → (∀ v ∈ Stmt.varsList .prop h.body, ctx.props.contains v = true) →
       ∀ (G : List Spec.Name), (∀ g ∈ Stmt.varsList .glob h.body, g ∈ G) →
-      ∀ (a : Nat) (st : PState), st.bpc = 6 → GvOk G st.gvars →
-        ∃ ns gv' p q, EmbSs h.body ns ∧ PlainStmts ns ∧ GvOk G gv' ∧
-          runIs ctx a is st = .ok { st with stmts := st.stmts ++ ns ++ [exitNode p q], gvars := gv' }
+      ∀ (a : Nat) (st : PState), st.bpc = 6 → GvOk G st.gvars → st.stmts = [] →
+        ∃ raw gv' len, B h a len raw ∧ PosIn a len raw ∧ GvNext G st.gvars gv' ∧
+          runIs ctx a is st = .ok { st with stmts := raw ++ [exitNode ((a + len : Nat) : Int) ((a + len : Nat) : Int)], gvars := gv' }
 
-theorem lowerHandler_ok (hnames sg : List Spec.Name) (h : Handler) (hfb : FragSs h.body = true) (hm : h.isMethod = false)
-    (hgl : h.globalsUsed sg = []) (s0 s1 : St) (hc : HCode)
+theorem lowerHandler_okg (B : Handler → Nat → Nat → List Node → Prop) (hnames sg : List Spec.Name) (h : Handler)
+    (hbody : BodyRun B hnames h) (hm : h.isMethod = false)
+    (s0 s1 : St) (hc : HCode)
     (hl : lowerHandler hnames sg h s0 = .ok (hc, s1)) :
-    Ext s0 s1 ∧ ∀ sF, Ext s1 sF → HandlerOK hnames sF h hc := by
+    Ext s0 s1 ∧ ∀ sF, Ext s1 sF → HandlerOKg B hnames sg sF h hc := by
   unfold lowerHandler at hl
-  simp only [M_bind_ok, hgl, List.mapM_nil, M_pure_ok, Prod.mk.injEq, exists_eq_right_right', exists_and_left, exists_eq_left'] at hl
-  obtain ⟨ni, s2, hni, args, s3, hargs, locIdx, s5, hloc, globIdx, s5', ⟨rfl, rfl⟩, cs, s6, hcs, hfin⟩ := hl
+  simp only [M_bind_ok, M_pure_ok] at hl
+  obtain ⟨ni, s2, hni, args, s3, hargs, locIdx, s4, hloc, globIdx, s5, hglob, cs, s6, hcs, hfin⟩ := hl
   obtain ⟨e1, hget, hlt, _⟩ := nameIdx_ok _ _ _ _ hni
   obtain ⟨e2, hA⟩ := mapM_nameIdx_ok _ _ _ _ hargs
   obtain ⟨e3, hL⟩ := mapM_nameIdx_ok _ _ _ _ hloc
-  obtain ⟨e4, hop, hrun⟩ := stmts_lemma h.body hfb _ _ _ cs hcs
+  obtain ⟨e3', hGl⟩ := mapM_nameIdx_ok _ _ _ _ hglob
+  obtain ⟨e4, hop, hrun⟩ := hbody _ _ cs hcs
   by_cases hwf : ((layoutStmts none cs ++ [Instr.op1 (if h.isMethod = true then 2 else 1)]).all fun i => decide i.WF) = true
   · rw [if_pos hwf] at hfin
     simp only [M_pure_ok, Prod.mk.injEq] at hfin
     obtain ⟨rfl, rfl⟩ := hfin
-    refine ⟨((e1.trans e2).trans e3).trans e4, ?_⟩
+    refine ⟨(((e1.trans e2).trans e3).trans e3').trans e4, ?_⟩
     intro sF hF
-    refine ⟨⟨hlt, (((e2.trans e3).trans e4).trans hF).name hget⟩, ?_, (hL.mono (e4.trans hF)), rfl, ?_⟩
-    · have := hA.mono ((e3.trans e4).trans hF)
+    refine ⟨⟨hlt, ((((e2.trans e3).trans e3').trans e4).trans hF).name hget⟩, ?_, (hL.mono ((e3'.trans e4).trans hF)), hGl.mono (e4.trans hF), ?_⟩
+    · have := hA.mono (((e3.trans e3').trans e4).trans hF)
       simpa [hm] using this
     · refine ⟨_, rfl, ?_, ?_⟩
       · intro i hi
@@ -145,20 +166,19 @@ theorem lowerHandler_ok (hnames sg : List Spec.Name) (h : Handler) (hfb : FragSs
         rcases List.mem_append.mp hi with hi | hi
         · exact hop i hi
         · simp only [List.mem_singleton] at hi; subst hi; simp [Instr.opc, hm]
-      · intro ctx hrel hP G hG a st hb hgv
-        have hrel' : Rel { handlers := hnames, params := h.params, locals := h.locals, isMethod := h.isMethod, inTell := false } sF ctx := hrel
-        obtain ⟨ns, gv', hemb, hplain, hgv', hr⟩ := hrun sF ctx hF hrel' G hG hP a st hb hgv
-        refine ⟨ns, gv', ((a + codeSize (layoutStmts none cs) : Nat) : Int), ((a + codeSize (layoutStmts none cs) : Nat) : Int), hemb, hplain, hgv', ?_⟩
+      · intro ctx hrel hP G hG a st hb hgv hst
+        obtain ⟨raw, gv', hB, hpos, hgv', hr⟩ := hrun sF ctx hF hrel G hG hP a st hb hgv hst
+        refine ⟨raw, gv', codeSize (layoutStmts none cs), hB, hpos, hgv', ?_⟩
         rw [runIs_append, hr]
         simp only [Except.bind]
         rw [runIs_single, exec_exit ctx _ (by simp [hm])]
   · rw [if_neg hwf] at hfin
     simp [Spec.fail] at hfin
 
-theorem lowerHandlers_ok (hnames sg : List Spec.Name) : ∀ (hs : List Handler),
-    (∀ h ∈ hs, FragSs h.body = true ∧ h.isMethod = false ∧ h.globalsUsed sg = []) → ∀ (s0 s1 : St) (hcs : List HCode),
+theorem lowerHandlers_okg (B : Handler → Nat → Nat → List Node → Prop) (hnames sg : List Spec.Name) : ∀ (hs : List Handler),
+    (∀ h ∈ hs, BodyRun B hnames h ∧ h.isMethod = false) → ∀ (s0 s1 : St) (hcs : List HCode),
     lowerHandlers hnames sg hs s0 = .ok (hcs, s1) →
-    Ext s0 s1 ∧ ∀ sF, Ext s1 sF → All2 (HandlerOK hnames sF) hs hcs
+    Ext s0 s1 ∧ ∀ sF, Ext s1 sF → All2 (HandlerOKg B hnames sg sF) hs hcs
   | [], _, s0, s1, hcs, h => by
     rw [lowerHandlers] at h
     simp only [M_pure_ok, Prod.mk.injEq] at h
@@ -168,10 +188,87 @@ theorem lowerHandlers_ok (hnames sg : List Spec.Name) : ∀ (hs : List Handler),
     rw [lowerHandlers] at h
     simp only [M_bind_ok, M_pure_ok, Prod.mk.injEq] at h
     obtain ⟨c, s', hc, cs, s'', hcs', rfl, rfl⟩ := h
-    obtain ⟨hb, hm, hg⟩ := hf x (by simp)
-    obtain ⟨e1, h1⟩ := lowerHandler_ok hnames sg x hb hm hg s0 _ c hc
-    obtain ⟨e2, h2⟩ := lowerHandlers_ok hnames sg xs (fun y hy => hf y (by simp [hy])) _ _ cs hcs'
+    obtain ⟨hb, hm⟩ := hf x (by simp)
+    obtain ⟨e1, h1⟩ := lowerHandler_okg B hnames sg x hb hm s0 _ c hc
+    obtain ⟨e2, h2⟩ := lowerHandlers_okg B hnames sg xs (fun y hy => hf y (by simp [hy])) _ _ cs hcs'
     exact ⟨e1.trans e2, fun sF hF => All2.cons (h1 sF (e2.trans hF)) (h2 sF hF)⟩
+
+/-- the instance of this development: one plain `Statement` per source statement, untouched by the flow passes -/
+def B₀ (hs : List Spec.Name) (h : Handler) (_a _len : Nat) (raw : List Node) : Prop := EmbSsH hs h.body raw ∧ PlainStmts raw
+def F₀ (hs : List Spec.Name) (h : Handler) (fin : List Node) : Prop := EmbSsH hs h.body fin
+
+theorem plain_exit (p q : Int) : PlainStmt (exitNode p q) := PlainStmt.call _ _ _ _ _ _ _ _
+
+theorem bodyRun₀ (hnames : List Spec.Name) (h : Handler) (hfb : FragSs h.body = true) : BodyRun (B₀ hnames) hnames h := by
+  intro s0 s1 cs hcs
+  obtain ⟨e, hop, hrun⟩ := stmts_lemma h.body hfb (hctx hnames h) rfl s0 s1 cs hcs
+  refine ⟨e, hop, ?_⟩
+  intro sF ctx hF hrel G hG hP a st hb hgv hst
+  obtain ⟨ns, gv', hemb, hplain, hpos, hgv', hr⟩ := hrun sF ctx hF hrel G hG hP a st hb hgv
+  refine ⟨ns, gv', ⟨hemb, hplain⟩, hpos, hgv', ?_⟩
+  rw [hr, hst, List.nil_append]
+
+theorem flowOk₀ (hs : List Spec.Name) (h : Handler) : FlowOk (B₀ hs) (F₀ hs) h := by
+  intro a len raw hB _
+  have hplains : PlainStmts (raw ++ [exitNode ((a + len : Nat) : Int) ((a + len : Nat) : Int)]) := by
+    intro x hx
+    rcases List.mem_append.mp hx with hx | hx
+    · exact hB.2 x hx
+    · simp only [List.mem_singleton] at hx; subst hx; exact plain_exit _ _
+  exact ⟨raw, by simp only [condDetect_plain hplains, Except.bind, loopDetect_plain hplains], hB.1⟩
+
+/-! ### the handler's table of globals -/
+
+theorem dedup_spec : ∀ (l acc : List Spec.Name), acc.Nodup → (dedup l acc).Nodup ∧ ∀ g, g ∈ dedup l acc ↔ g ∈ l ∨ g ∈ acc
+  | [], acc, h => by
+    simp only [dedup, List.mem_reverse]
+    exact ⟨(List.reverse_perm acc).nodup_iff.mpr h, fun g => by simp⟩
+  | x :: xs, acc, h => by
+    unfold dedup
+    split
+    · rename_i hx
+      obtain ⟨h1, h2⟩ := dedup_spec xs acc h
+      refine ⟨h1, fun g => ?_⟩
+      rw [h2 g]
+      have hxm : x ∈ acc := List.contains_iff_mem.mp hx
+      constructor
+      · rintro (hg | hg)
+        · exact Or.inl (by simp [hg])
+        · exact Or.inr hg
+      · rintro (hg | hg)
+        · rcases List.mem_cons.mp hg with hg | hg
+          · subst hg; exact Or.inr hxm
+          · exact Or.inl hg
+        · exact Or.inr hg
+    · rename_i hx
+      have hxm : x ∉ acc := fun hm => hx (List.contains_iff_mem.mpr hm)
+      obtain ⟨h1, h2⟩ := dedup_spec xs (x :: acc) (List.nodup_cons.mpr ⟨hxm, h⟩)
+      refine ⟨h1, fun g => ?_⟩
+      rw [h2 g]
+      simp only [List.mem_cons]
+      constructor
+      · rintro (hg | hg | hg)
+        · exact Or.inl (Or.inr hg)
+        · exact Or.inl (Or.inl hg)
+        · exact Or.inr hg
+      · rintro ((hg | hg) | hg)
+        · exact Or.inr (Or.inl hg)
+        · exact Or.inl hg
+        · exact Or.inr (Or.inr hg)
+
+theorem globalsUsed_nodup (h : Handler) (sg : List Spec.Name) : (h.globalsUsed sg).Nodup := by
+  unfold Handler.globalsUsed
+  exact ((dedup_spec _ [] List.nodup_nil).1).filter _
+
+/-- every global the body mentions is declared at script level or in the handler's own table -/
+theorem glob_in_G (h : Handler) (sg : List Spec.Name) : ∀ g ∈ Stmt.varsList .glob h.body, g ∈ sg ++ h.globalsUsed sg := by
+  intro g hg
+  by_cases hs : g ∈ sg
+  · exact List.mem_append_left _ hs
+  · refine List.mem_append_right _ ?_
+    unfold Handler.globalsUsed
+    rw [List.mem_filter]
+    exact ⟨((dedup_spec _ [] List.nodup_nil).2 g).mpr (Or.inl hg), by simpa using hs⟩
 
 /-! ### one parsed handler -/
 
@@ -179,8 +276,6 @@ theorem padEven_prefix (b : Bytes) : ∃ t, padEven b = b ++ t := by
   unfold padEven; split
   · exact ⟨[0], rfl⟩
   · exact ⟨[], by simp⟩
-
-theorem plain_exit (p q : Int) : PlainStmt (exitNode p q) := PlainStmt.call _ _ _ _ _ _ _ _
 
 /-- a handler record and its block sit in `d`: record at `frb`, block at some `off` -/
 def Placed (d : Bytes) (frb : Nat) (hc : HCode) : Prop :=
@@ -201,7 +296,7 @@ theorem rel_of_ctx0 (ctx0 : Lscr.Ctx) (sF : St) (hnames : List Spec.Name) (h : H
     (h0 : Ctx0 ctx0 sF hnames) (locals params : List Node) (hl : Leaves .localVar h.locals locals) (hp : Leaves .paramName h.params params) :
     Rel (hctx hnames h) sF { ctx0 with params := params, localVars := locals } := by
   refine ⟨h0.names, ?_, ?_, ?_, ?_⟩
-  · intro k n hk
+  · intro k cst hk
     show ctx0.constants[k]? = _
     rw [h0.consts, List.getElem?_map, hk]; rfl
   · intro v j hj
@@ -223,18 +318,36 @@ theorem rel_of_ctx0 (ctx0 : Lscr.Ctx) (sF : St) (hnames : List Spec.Name) (h : H
     have := (idxOf_get f _ 0 k hk).2
     simpa [hctx] using this
 
-theorem parseFunc_ok (ctx0 : Lscr.Ctx) (d : Bytes) (frb : Nat) (h : Handler) (hc : HCode) (sF : St) (hnames G : List Spec.Name)
-    (h0 : Ctx0 ctx0 sF hnames) (hok : HandlerOK hnames sF h hc) (hm : h.isMethod = false) (hpl : Placed d frb hc)
-    (hP : ∀ v ∈ Stmt.varsList .prop h.body, ctx0.props.contains v = true) (hG : ∀ g ∈ Stmt.varsList .glob h.body, g ∈ G)
-    (regs : Regs) (F : List FuncDef) :
-    ∃ regs' f, parseFunc ctx0 d (frb : Int) { bpc := 6, tell := false, regs := regs, funcs := F }
-        = .ok { bpc := 6, tell := false, regs := regs', funcs := F ++ [f] } ∧ FuncRel G h f := by
+/-- one parsed handler, with the flow passes' result described by `F` -/
+structure FuncRelg (F : Handler → List Node → Prop) (SG : List Spec.Name) (h : Handler) (f : FuncDef) : Prop where
+  name : f.name = h.name
+  params : Leaves .paramName h.params f.params
+  locals : Leaves .localVar h.locals f.localVars
+  isMethod : f.isMethod = false
+  gvars : GvList SG h f.globalVars
+  stmts : ∃ fin p q, f.stmts = fin ++ [exitNode p q] ∧ F h fin
+
+theorem FuncRelg.toFuncRel {hs G : List Spec.Name} {h : Handler} {f : FuncDef} (r : FuncRelg (F₀ hs) G h f) : FuncRel hs G h f := by
+  obtain ⟨fin, p, q, hs, hf⟩ := r.stmts
+  exact ⟨r.name, r.params, r.locals, r.isMethod, r.gvars, fin, p, q, hs, hf⟩
+
+theorem parseFunc_okg (B : Handler → Nat → Nat → List Node → Prop) (F : Handler → List Node → Prop)
+    (ctx0 : Lscr.Ctx) (d : Bytes) (frb : Nat) (h : Handler) (hc : HCode) (sF : St) (hnames G : List Spec.Name)
+    (h0 : Ctx0 ctx0 sF hnames) (hok : HandlerOKg B hnames G sF h hc) (hflow : FlowOk B F h) (hm : h.isMethod = false) (hpl : Placed d frb hc)
+    (hP : ∀ v ∈ Stmt.varsList .prop h.body, ctx0.props.contains v = true)
+    (regs : Regs) (Fs : List FuncDef) :
+    ∃ regs' f, parseFunc ctx0 d (frb : Int) { bpc := 6, tell := false, regs := regs, funcs := Fs }
+        = .ok { bpc := 6, tell := false, regs := regs', funcs := Fs ++ [f] } ∧ FuncRelg F G h f := by
   obtain ⟨off, hrec, hblk, hsz⟩ := hpl
-  obtain ⟨locals, params, hfrb, hL, hPm⟩ := readFrb_ok ctx0 d frb off hc h.name h.params h.locals hrec hblk hsz (by have := hok.ni.1; omega)
-    (by rw [h0.names]; exact hok.ni.2) (by rw [h0.names]; exact hok.args) (by rw [h0.names]; exact hok.locals) hok.globals
+  obtain ⟨locals, params, globals, hfrb, hL, hPm, hGm⟩ := readFrb_ok ctx0 d frb off hc h.name h.params h.locals (h.globalsUsed G) hrec hblk hsz
+    (by have := hok.ni.1; omega) (by rw [h0.names]; exact hok.ni.2) (by rw [h0.names]; exact hok.args) (by rw [h0.names]; exact hok.locals)
+    (by rw [h0.names]; exact hok.globals) (globalsUsed_nodup h G)
   obtain ⟨is, hcode, hgood, hrun⟩ := hok.code
   have hrel := rel_of_ctx0 ctx0 sF hnames h hm h0 locals params hL hPm
-  obtain ⟨ns, gv', p, q, hemb, hplain, hgv', hr⟩ := hrun _ hrel hP G hG off { bpc := 6, tell := false, gvars := [] } rfl (by intro x hx; cases hx)
+  have hbase : GvOk (G ++ h.globalsUsed G) globals := leaves_gvOk _ _ _ hGm (fun g hg => List.mem_append_right _ hg)
+  obtain ⟨raw, gv', len, hB, hpos, hgv', hr⟩ := hrun _ hrel hP (G ++ h.globalsUsed G) (glob_in_G h G) off
+    { bpc := 6, tell := false, gvars := globals } rfl hbase rfl
+  obtain ⟨fin, hfl, hF⟩ := hflow off len raw hB hpos
   have hcat : CodeAt d off (encodeInstrs is) := by
     obtain ⟨t, ht⟩ := padEven_prefix hc.code
     have : CodeAt d off (hc.code ++ (t ++ hc.args.flatMap be16 ++ hc.locals.flatMap be16 ++ hc.globals.flatMap be16)) := by
@@ -242,39 +355,42 @@ theorem parseFunc_ok (ctx0 : Lscr.Ctx) (d : Bytes) (frb : Nat) (h : Handler) (hc
     rw [← hcode]; exact this.left
   have hlen : hc.code.length = codeSize is := by rw [hcode, encodeInstrs_length]
   obtain ⟨regs1, hloop⟩ := opcodeLoop_run { ctx0 with params := params, localVars := locals } d off hc.code.length is off regs
-    { bpc := 6, tell := false, gvars := [] } _ hgood hcat (Nat.le_refl _) (by omega) hr
-  have hplains : PlainStmts (ns ++ [exitNode p q]) := by
-    intro x hx
-    rcases List.mem_append.mp hx with hx | hx
-    · exact hplain x hx
-    · simp only [List.mem_singleton] at hx; subst hx; exact plain_exit p q
-  refine ⟨regs1, { name := h.name, pos := (frb : Int) + 42, params := params, localVars := locals, globalVars := gv', stmts := ns ++ [exitNode p q], isMethod := false }, ?_, ⟨rfl, hPm, hL, rfl, hgv', ns, p, q, rfl, hemb⟩⟩
+    { bpc := 6, tell := false, gvars := globals } _ hgood hcat (Nat.le_refl _) (by omega) hr
+  obtain ⟨hgok, ⟨ext, hext⟩, hdist⟩ := hgv'
+  refine ⟨regs1, { name := h.name, pos := (frb : Int) + 42, params := params, localVars := locals, globalVars := gv', stmts := fin ++ [exitNode ((off + len : Nat) : Int) ((off + len : Nat) : Int)], isMethod := false }, ?_,
+    ⟨rfl, hPm, hL, rfl, ⟨globals, ext, hext, hGm, hgok, hdist (leaves_distinct _ _ hGm (globalsUsed_nodup h G))⟩, fin, _, _, rfl, hF⟩⟩
   unfold parseFunc
   simp only [hfrb, bind, Except.bind, parseOpcodes]
   rw [hloop, ← hlen, opcodeLoop_end]
-  simp only [List.nil_append, condDetect_plain hplains, loopDetect_plain hplains, pure, Except.pure]
+  simp only [Except.bind] at hfl
+  cases hcd : condDetect (raw ++ [exitNode ((off + len : Nat) : Int) ((off + len : Nat) : Int)]) with
+  | error e => rw [hcd] at hfl; cases hfl
+  | ok l1 =>
+    rw [hcd] at hfl
+    simp only at hfl
+    simp only [hcd, hfl, pure, Except.pure]
 
-theorem parseFuncs_ok (ctx0 : Lscr.Ctx) (d : Bytes) (frb : Nat) (sF : St) (hnames G : List Spec.Name) (h0 : Ctx0 ctx0 sF hnames) :
-    ∀ (hs : List Handler) (hcs : List HCode), All2 (HandlerOK hnames sF) hs hcs →
-    (∀ h ∈ hs, h.isMethod = false ∧ (∀ v ∈ Stmt.varsList .prop h.body, ctx0.props.contains v = true) ∧
-      ∀ g ∈ Stmt.varsList .glob h.body, g ∈ G) →
-    ∀ (k : Nat), (∀ j hc, hcs[j]? = some hc → Placed d (frb + 42 * (k + j)) hc) → ∀ (regs : Regs) (F : List FuncDef),
-    ∃ regs' fs, parseFuncs ctx0 d hs.length ((frb + 42 * k : Nat) : Int) { bpc := 6, tell := false, regs := regs, funcs := F }
-        = .ok { bpc := 6, tell := false, regs := regs', funcs := F ++ fs } ∧ All2 (FuncRel G) hs fs := by
+theorem parseFuncs_okg (B : Handler → Nat → Nat → List Node → Prop) (F : Handler → List Node → Prop)
+    (ctx0 : Lscr.Ctx) (d : Bytes) (frb : Nat) (sF : St) (hnames G : List Spec.Name) (h0 : Ctx0 ctx0 sF hnames) :
+    ∀ (hs : List Handler) (hcs : List HCode), All2 (HandlerOKg B hnames G sF) hs hcs →
+    (∀ h ∈ hs, FlowOk B F h ∧ h.isMethod = false ∧ (∀ v ∈ Stmt.varsList .prop h.body, ctx0.props.contains v = true)) →
+    ∀ (k : Nat), (∀ j hc, hcs[j]? = some hc → Placed d (frb + 42 * (k + j)) hc) → ∀ (regs : Regs) (Fs : List FuncDef),
+    ∃ regs' fs, parseFuncs ctx0 d hs.length ((frb + 42 * k : Nat) : Int) { bpc := 6, tell := false, regs := regs, funcs := Fs }
+        = .ok { bpc := 6, tell := false, regs := regs', funcs := Fs ++ fs } ∧ All2 (FuncRelg F G) hs fs := by
   intro hs hcs hall
   induction hall with
   | nil =>
-    intro _ k _ regs F
+    intro _ k _ regs Fs
     exact ⟨regs, [], by simp [parseFuncs], All2.nil⟩
   | @cons h hc hs hcs hok _ ih =>
-    intro hfr k hpl regs F
-    obtain ⟨hm, hP, hG⟩ := hfr h (by simp)
-    obtain ⟨regs1, f, hpf, hrel⟩ := parseFunc_ok ctx0 d (frb + 42 * k) h hc sF hnames G h0 hok hm (by simpa using hpl 0 hc rfl) hP hG regs F
+    intro hfr k hpl regs Fs
+    obtain ⟨hfl, hm, hP⟩ := hfr h (by simp)
+    obtain ⟨regs1, f, hpf, hrel⟩ := parseFunc_okg B F ctx0 d (frb + 42 * k) h hc sF hnames G h0 hok hfl hm (by simpa using hpl 0 hc rfl) hP regs Fs
     obtain ⟨regs2, fs, hpfs, hrels⟩ := ih (fun x hx => hfr x (by simp [hx])) (k + 1)
       (fun j c hj => by
         have := hpl (j + 1) c (by simpa using hj)
         have e : k + (j + 1) = k + 1 + j := by omega
-        rwa [e] at this) regs1 (F ++ [f])
+        rwa [e] at this) regs1 (Fs ++ [f])
     refine ⟨regs2, f :: fs, ?_, All2.cons hrel hrels⟩
     simp only [List.length_cons, parseFuncs, hpf, bind, Except.bind]
     have e : ((frb + 42 * k : Nat) : Int) + 42 = ((frb + 42 * (k + 1) : Nat) : Int) := by omega
@@ -307,21 +423,21 @@ theorem globalsUsed_nil (h : Handler) (sg : List Spec.Name) (hall : ∀ g ∈ St
 
 theorem fragH_spec (s : Spec.Script) (h : Handler) (hf : FragH s h = true) :
     h.isMethod = false ∧ idOk h.name = true ∧ (∀ v ∈ h.params, idOk v = true) ∧ FragSs h.body = true ∧
-      (∀ g ∈ Stmt.varsList .glob h.body, g ∈ s.globals) ∧ (∀ v ∈ Stmt.varsList .prop h.body, v ∈ s.props) := by
+      (∀ v ∈ Stmt.varsList .prop h.body, v ∈ s.props) ∧ (∀ g ∈ h.globalsUsed s.globals, idOk g = true) := by
   simp only [FragH, Bool.and_eq_true, Bool.not_eq_true', List.all_eq_true, List.contains_iff_mem] at hf
-  obtain ⟨⟨⟨⟨⟨h1, h2⟩, h3⟩, h4⟩, h5⟩, h6⟩ := hf
-  exact ⟨h1, h2, h3, h4, h5, h6⟩
+  obtain ⟨⟨⟨⟨⟨h1, h2⟩, h3⟩, h4⟩, h6⟩, h7⟩ := hf
+  exact ⟨h1, h2, h3, h4, h6, h7⟩
 
 /-- **inversion of `compile`** on the fragment: the container is the pure layout of its parts, and the parts satisfy what the
     lower layers need -/
-theorem compile_inv (o : Options) (s : Spec.Script) (c : Compiled) (hf : FragScript s = true) (h : compile o s = .ok c) :
+theorem compile_invg (B : Handler → Nat → Nat → List Node → Prop) (o : Options) (s : Spec.Script) (c : Compiled) (hfac : s.factory = [])
+    (hH : ∀ h ∈ s.handlers, BodyRun B (s.handlers.map (·.name)) h ∧ h.isMethod = false)
+    (h : compile o s = .ok c) :
     ∃ (propIdx globIdx : List Nat) (hcs : List HCode) (sF : St),
       c.lscr = (Lay.mk (o.scrNum % 65536) 0xffff propIdx globIdx hcs sF.consts).bytes ∧ c.lnam = lnamBytes sF.names ∧ c.names = sF.names ∧
       NamesAt sF.names propIdx s.props ∧ NamesAt sF.names globIdx s.globals ∧
-      All2 (HandlerOK (s.handlers.map (·.name)) sF) s.handlers hcs ∧ (∀ k ∈ sF.consts, GoodConst k) ∧
+      All2 (HandlerOKg B (s.handlers.map (·.name)) s.globals sF) s.handlers hcs ∧ (∀ k ∈ sF.consts, GoodConst k) ∧
       (Lay.mk (o.scrNum % 65536) 0xffff propIdx globIdx hcs sF.consts).size < 32768 ∧ (∀ n ∈ sF.names, n.length < 256) := by
-  simp only [FragScript, Bool.and_eq_true, List.all_eq_true, List.isEmpty_iff] at hf
-  obtain ⟨⟨⟨hfac, _⟩, _⟩, hH⟩ := hf
   unfold compile at h
   cases hc : compileM s o.scrNum { names := o.pre, consts := [] } with
   | error e => rw [hc] at h; cases h
@@ -337,10 +453,7 @@ theorem compile_inv (o : Options) (s : Spec.Script) (c : Compiled) (hf : FragScr
     obtain ⟨rfl, rfl⟩ := hget
     obtain ⟨e1, hP⟩ := mapM_nameIdx_ok _ _ _ _ hp
     obtain ⟨e2, hG⟩ := mapM_nameIdx_ok _ _ _ _ hg
-    obtain ⟨e3, hHs⟩ := lowerHandlers_ok (s.handlers.map (·.name)) s.globals s.handlers (by
-      intro x hx
-      obtain ⟨h1, _, _, h4, h5, _⟩ := fragH_spec s x (hH x hx)
-      exact ⟨h4, h1, globalsUsed_nil x s.globals h5⟩) _ _ hcs hl
+    obtain ⟨e3, hHs⟩ := lowerHandlers_okg B (s.handlers.map (·.name)) s.globals s.handlers hH _ _ hcs hl
     have hgood : ∀ k ∈ s5.consts, GoodConst k := ((e1.trans e2).trans e3).good (by simp)
     have hlen : s.handlers.length = hcs.length := (hHs s5 (Ext.refl _)).length_eq
     refine ⟨propIdx, globIdx, hcs, s5, ?_⟩
@@ -384,5 +497,18 @@ theorem compile_inv (o : Options) (s : Spec.Script) (c : Compiled) (hf : FragScr
           have e2 : ∀ v, encF (2, v) = be16 v := fun _ => rfl
           have e4 : ∀ v, encF (4, v) = be32 v := fun _ => rfl
           simp [List.append_assoc, e2, e4, hmod]
+
+theorem compile_inv (o : Options) (s : Spec.Script) (c : Compiled) (hf : FragScript s = true) (h : compile o s = .ok c) :
+    ∃ (propIdx globIdx : List Nat) (hcs : List HCode) (sF : St),
+      c.lscr = (Lay.mk (o.scrNum % 65536) 0xffff propIdx globIdx hcs sF.consts).bytes ∧ c.lnam = lnamBytes sF.names ∧ c.names = sF.names ∧
+      NamesAt sF.names propIdx s.props ∧ NamesAt sF.names globIdx s.globals ∧
+      All2 (HandlerOKg (B₀ (s.handlers.map (·.name))) (s.handlers.map (·.name)) s.globals sF) s.handlers hcs ∧ (∀ k ∈ sF.consts, GoodConst k) ∧
+      (Lay.mk (o.scrNum % 65536) 0xffff propIdx globIdx hcs sF.consts).size < 32768 ∧ (∀ n ∈ sF.names, n.length < 256) := by
+  simp only [FragScript, Bool.and_eq_true, List.all_eq_true, List.isEmpty_iff] at hf
+  obtain ⟨⟨⟨hfac, _⟩, _⟩, hH⟩ := hf
+  refine compile_invg (B₀ (s.handlers.map (·.name))) o s c hfac ?_ h
+  intro x hx
+  obtain ⟨h1, _, _, h4, _, _⟩ := fragH_spec s x (hH x hx)
+  exact ⟨bodyRun₀ _ x h4, h1⟩
 
 end Drx.Link
